@@ -1,6 +1,7 @@
 package streamsim
 
 import (
+	"bytes"
 	"io"
 
 	"github.com/tsenart/vegeta/v12/internal/simrt"
@@ -128,6 +129,11 @@ func runMulti(t *simrt.Tape, keep bool) simrt.Outcome {
 	rs := genResults(r, total, simcommon.GenOpts{NoCR: true, MaxBody: 2000})
 	for i := range rs {
 		rs[i].Seq = uint64(i) // identity of a record
+	}
+	if total > 1 && t.Prob(1, 8) {
+		// one record larger than the usual line/token buffers (64 KiB), not the first of its input
+		rs[1+t.Choose(total-1)].Body = bytes.Repeat([]byte{byte('a' + t.Choose(26))}, 70000+t.Choose(60000))
+		r.stats["probe.record-larger-than-64KiB"]++
 	}
 	// split into k parts of unequal lengths (parts may be empty)
 	part := make([]int, total)
